@@ -235,6 +235,10 @@ class FrameInterp(Interp):
                 if hi0 is None:
                     return self.compare("Lt", Sym(1), add(lo0, 1))
                 return self.compare("Eq", lo0, hi0)
+            if short in ("first", "split_first"):
+                cond = self.compare("Gt", Sym(1), lo0) if hi0 is None else self.compare("Lt", lo0, hi0)
+                some = Ref(("byte", lo0)) if short == "first" else Tup([Ref(("byte", lo0)), Ref(("slice", add(lo0, 1), hi0))])
+                return ("fork-option", cond, some)
             raise Undecided("call of %s" % c)
         if c in ("core::iter::Iterator::zip", "core::iter::Iterator::map", "core::iter::Iterator::sum", "core::iter::Iterator::fold",
                  "core::iter::Iterator::rev", "core::iter::Iterator::enumerate") and t["args"]:
